@@ -40,6 +40,14 @@ def catalog(rng, form=None):
         if form == 4:
             integrations += [{'name': 'files', 'type': 'data'}, {'name': 'views', 'type': 'data'}]
     models = copy.deepcopy(MODELS)
+    if form in (1, 5):
+        # keys of its own that a catalog record may carry (the statement decides which version is meant, not the catalog)
+        for m in models:
+            m.update({'version': rng.choice(['9', 9, None]), 'id': 17, 'active': True, 'engine': 'e'})
+        for rec in integrations:
+            if isinstance(rec, dict):
+                rec.update({'id': 3, 'engine': 'postgres', 'connection_data': {'host': 'h'}})
+        desc['extra_record_keys'] = True
     if form in (3, 5):
         pm = {m['name']: m for m in models}        # legacy dict
         desc['predictors'] = 'legacy-dict'
